@@ -7,33 +7,17 @@ Open Scope string_scope.
 
 (* (object file, symbol, size in bytes) of every object in a writable section *)
 Definition statics : list (string * string * N) := [
-  ("archive_read_disk_posix.c", "can_dupfd_cloexec", 4%N);
   ("archive_read_disk_posix.c", "lst", 8%N);
-  ("archive_read_support_filter_compress.c", "debug_index", 4%N);
-  ("archive_read_support_format_lha.c", "crc16init", 4%N);
-  ("archive_read_support_format_lha.c", "crc16tbl", 1024%N);
-  ("archive_read_support_format_tar.c", "decode_table", 128%N);
-  ("archive_read_support_format_tar.c", "default_dev", 4%N);
-  ("archive_read_support_format_tar.c", "default_inode", 4%N);
-  ("archive_time.c", "dos_initialised", 1%N);
-  ("archive_time.c", "dos_max_unix", 8%N);
-  ("archive_time.c", "dos_min_unix", 8%N);
+  ("archive_version_details.c", "init", 4%N);
+  ("archive_version_details.c", "mtx", 40%N);
   ("archive_version_details.c", "str", 24%N)
 ].
 
 (* section each of them lives in (same order) *)
 Definition statics_sections : list string := [
-  ".data.can_dupfd_cloexec.2";
   ".bss.lst.1";
-  ".bss.debug_index.1";
-  ".bss.crc16init.1";
-  ".bss.crc16tbl";
-  ".bss.decode_table.0";
-  ".bss.default_dev.3";
-  ".bss.default_inode.2";
-  ".bss.dos_initialised";
-  ".bss.dos_max_unix";
-  ".bss.dos_min_unix";
+  ".bss.init.1";
+  ".bss.mtx.2";
   ".bss.str.0"
 ].
 
@@ -60,6 +44,7 @@ Definition classification : list (string * string * (N * string)) := [
   ("archive_time.c", "dos_initialised", (3%N, ""));
   ("archive_time.c", "dos_max_unix", (3%N, ""));
   ("archive_time.c", "dos_min_unix", (3%N, ""));
-  ("archive_version_details.c", "init", (3%N, ""));
-  ("archive_version_details.c", "str", (3%N, ""))
+  ("archive_version_details.c", "init", (0%N, "archive_version_details.mtx"));
+  ("archive_version_details.c", "mtx", (0%N, "archive_version_details.mtx"));
+  ("archive_version_details.c", "str", (1%N, ""))
 ].
